@@ -139,5 +139,14 @@ def body(ch, ctx):
                 and [g.seqid, g.source, g.featuretype, g.start, g.end, g.score, g.strand, g.frame] == got_cols
                 and list(g.extra) == [])
         ctx.check(same, "non-strict-space-rendering-differs", sig, line=spaced, tab=str(f), spaced=str(g))
+        # hand-aligned columns: two blanks at every column boundary
+        wide = "  ".join(list(cols) + ([attrs_text] if attrs_text else []))
+        try:
+            g2 = feature_from_line(wide, strict=False, keep_order=True)
+            same2 = g2 == f and list(G.as_plain(g2.attributes).items()) == list(got_attrs.items()) and \
+                [g2.seqid, g2.source, g2.featuretype, g2.start, g2.end, g2.score, g2.strand, g2.frame] == got_cols
+        except Exception as e:
+            g2, same2 = "raised %s" % type(e).__name__, False
+        ctx.check(same2, "non-strict-space-rendering-differs", dict(sig, two_blanks=True), line=wide, tab=str(f), spaced=str(g2))
         outcome.append("sp")
     ctx.outcome(tuple(outcome))
